@@ -1,6 +1,6 @@
 """C03 - no page exceeds the nrow row budget."""
 from ..runner import Ob
-from ._pag import F_ASSIGN, F_META, HDR, assign_ob, partitions
+from ._pag import glue_ob, F_ASSIGN, F_META, HDR, assign_ob, partitions
 
 HDR_RES = HDR + r'''
 import copy
@@ -13,9 +13,17 @@ class Hdr:
         self.text = text
         self.border_top = [[""]]
 
-class PageData:
+class _FrameStub:
+    """stand-in for pl.DataFrame in the auto-header branch: isinstance target and row-oriented constructor"""
+    def __init__(self, rows=None, schema=None, orient=None):
+        self.rows = rows
+        self.shape = (len(rows), len(rows[0]) if rows else 0)
+
+class PageData(_FrameStub):
     """page.data stand-in: the auto-header branch only needs .columns of a frame-like object"""
     columns = ["a", "b"]
+    def __init__(self):
+        pass
 
 def reservation_vs_render(h1, h2, as_colheader, needs_header, fn, src, pf, ps, subline, first, last):
     """returns (reserved, emitted repeated table rows) for the SAME document namespace"""
@@ -54,14 +62,6 @@ def reservation_vs_render(h1, h2, as_colheader, needs_header, fn, src, pf, ps, s
             emitted += 1
     return reserved, emitted
 
-class _FrameMeta(type):
-    def __instancecheck__(cls, obj):
-        return isinstance(obj, PageData) or type.__instancecheck__(cls, obj)
-
-class _FrameStub(metaclass=_FrameMeta):
-    def __init__(self, rows=None, schema=None, orient=None):
-        self.rows = rows
-        self.shape = (len(rows), len(rows[0]) if rows else 0)
 '''
 
 HDR_FONT = HDR + r'''
@@ -172,6 +172,7 @@ def build(tier, seed):
         funcs=F_META, stubs=["get_string_width -> recording stub", "data frame -> FakeFrame", "table attrs -> namespace"],
         bounds="2 rows x 1 column; fonts in {1,4,9}, sizes in {9,12,18}; scalar or per-row attribute shape",
         what="get_string_width is asked for cell (r,c) with the body's text_font/text_font_size at (r,c)"))
+    obs.append(glue_ob("O5.section_glue", T))
     meta = {
         "explanation": "The budget is decided on the real kernels: _assign_pages with unbounded symbolic heights/nrow/reserved rows "
                        "(every multi-row page fits), reservation adequacy by running calculate_additional_rows_per_page and the "
